@@ -201,10 +201,13 @@ impl Exec {
     pub fn new_calls(cfg: &Config, method: &str, as_parts: bool, pre: &[Option<u32>]) -> Result<Exec, String> {
         let mut rb = http::Request::builder().method(method).uri("/");
         if let Some(a) = &cfg.accept {
-            rb = rb.header(
-                "accept-encoding",
-                http::HeaderValue::from_bytes(a.as_bytes()).map_err(|e| e.to_string())?,
-            );
+            // a '\n' separates several Accept-Encoding header lines
+            for line in a.split('\n') {
+                rb = rb.header(
+                    "accept-encoding",
+                    http::HeaderValue::from_bytes(line.as_bytes()).map_err(|e| e.to_string())?,
+                );
+            }
         }
         let req = rb.body(()).map_err(|e| e.to_string())?;
         let (resp, w) = catch_unwind(AssertUnwindSafe(|| {
